@@ -70,6 +70,30 @@ class Violation(AssertionError):
     pass
 
 
+class XitorchRaised(Exception):
+    """an exception that came out of a call into xitorch (or out of autograd running xitorch's backward)"""
+    def __init__(self, kind, detail):
+        super().__init__(kind)
+        self.kind = kind
+        self.detail = detail
+
+
+def xt_call(fn, *args, _where="backward", **kwargs):
+    """call into xitorch / autograd-through-xitorch; any exception becomes a violation candidate.
+    (the autograd engine raises some errors - e.g. a gradient returned for a non-tensor input - from C++,
+    without any xitorch frame on the traceback, so frame-based classification alone would miss them)"""
+    import re
+    try:
+        return fn(*args, **kwargs)
+    except (HarnessError, KeyboardInterrupt, MemoryError):
+        raise
+    except Exception as e:  # noqa: BLE001
+        site = xitorch_frame(e.__traceback__) or _where
+        msg = re.sub(r"[0-9]+", "#", str(e).splitlines()[0] if str(e) else "")[:80]
+        tbtxt = "".join(traceback.format_exception(type(e), e, e.__traceback__)[-5:])
+        raise XitorchRaised("exception:%s@%s:%s" % (type(e).__name__, site, msg), "%s: %s\n%s" % (type(e).__name__, e, tbtxt[-1200:])) from e
+
+
 @dataclass
 class Task:
     name: str
@@ -111,6 +135,8 @@ def safe_run(run: Callable[[dict], Verdict], case: dict) -> Verdict:
             v = run(case)
     except (HarnessError, KeyboardInterrupt, MemoryError):
         raise
+    except XitorchRaised as e:
+        return violation(e.kind, e.detail)
     except Exception as e:  # noqa: BLE001 - classified, not swallowed
         kind = classify_exception(e)
         if kind is None:
